@@ -77,6 +77,7 @@ structure St where
   maxSp : Int := 0           -- ghost: high-water mark of sp
   evs : List Ev := []        -- newest first
   br : List Nat := []        -- ghost: branches of the machine taken (coverage measurement of the generators only)
+  raises : Nat := 0          -- ghost: error deliveries so far (entries of mudlib_error_handler: one per `raise`)
   deriving Repr
 
 inductive Out
@@ -102,7 +103,7 @@ def hasEs (s : St) (bit : Nat) : Bool := s.es &&& bit != 0
     catch or safe apply completing inside the handler pops a context, which clears `error_state`; error_handler
     keeps the limit bits across the handler call (fixes 46c02c6 and d927c4d), so whatever the handler does
     (`cfg.handlerCatches`) the receiving context sees the state of the raise. -/
-def raise (_cfg : Cfg) (_ctx : Ctx) (k : Kind) (s : St) : Out × St := (.raised k, s)
+def raise (_cfg : Cfg) (_ctx : Ctx) (k : Kind) (s : St) : Out × St := (.raised k, { s with raises := s.raises + 1 })
 
 /-- the evaluation budget as configured: rc.cpp and set_eval_limit clamp it to at least 1 (fix 7c5c9ea) -/
 def clampCost (v : Int) : Int := if v < (clampMin : Int) then (clampMin : Int) else v   -- clampMin regenerated from rc.cpp
@@ -252,8 +253,8 @@ def exec (cfg : Cfg) : Nat → Ctx → Sh → St → Out × St
          | (.fuel, s1) => (.fuel, s1))
     | .catch_ body =>
       -- do_catch (src/frame.c).
-      -- `if (!save_context (&econ)) error ("*Can't catch too deep recursion error.")`; at full depth the master's
-      -- error handler cannot be applied either ("Too deep recursion" inside it), which sets ES_STACK_FULL
+      -- `if (!save_context (&econ)) { set_error_state (ES_STACK_FULL); error ("*Can't catch too deep recursion error."); }`
+      -- (fix 187b28d, site catchAtDepthMarked: before it the bit only arrived through the failing apply of the master's handler)
       if s.depth - 1 == cfg.maxDepth - 1 then
         raise cfg ctx .deep (mark 4 (setEs s esStackFull))
       else
@@ -273,5 +274,14 @@ def St.start (cfg : Cfg) : St :=
 /-- one driver-started evaluation of `sh`: the entry function is applied (a frame), inside a driver-level context -/
 def evaluate (cfg : Cfg) (fuel : Nat) (sh : Sh) : Out × St :=
   exec cfg fuel .driver (.call 0 sh) (St.start cfg)
+
+/-- number of safe applies a run of the shape can make (an upper bound of the extra ticks) -/
+def Sh.safeWeight : Sh → Nat
+  | .safe b => b.safeWeight + 1
+  | .call _ b => b.safeWeight
+  | .catch_ b => b.safeWeight
+  | .cb k b => k * b.safeWeight
+  | .seq a b => a.safeWeight + b.safeWeight
+  | _ => 0
 
 end NV.C04
